@@ -32,7 +32,7 @@ func pollingEffects(c *core.Ctx, R string) {
 		})
 	}
 	// ---- onPollRequest ----
-	if u := c.Fn(R, polOnPoll); u != nil {
+	if u := c.Fn(R, polOnPoll); u != nil && localAnchors(c, R, u, "onClose") {
 		won := claimGuard("polling.req", true)
 		requireEffects(c, R, u, []effect{
 			{name: "Once(close,onClose)", match: mListener("Once", "close", "onClose"), on: []core.Guard{won}},
@@ -62,7 +62,7 @@ func pollingEffects(c *core.Ctx, R string) {
 		}
 	}
 	// ---- onDataRequest ----
-	if u := c.Fn(R, polOnData); u != nil {
+	if u := c.Fn(R, polOnData); u != nil && localAnchors(c, R, u, "onClose", "cleanup", "isBinary", "body") {
 		won := claimGuard("polling.dataCtx", true)
 		bin := gBoolLocal("isBinary")
 		v4 := gCallIntEq(".Protocol", 4)
@@ -128,7 +128,7 @@ func pollingEffects(c *core.Ctx, R string) {
 		}
 	}
 	// ---- write ----
-	if u := c.Fn(R, polWrite); u != nil {
+	if u := c.Fn(R, polWrite); u != nil && localAnchors(c, R, u, "ctx") {
 		none := gNilLocal("ctx", false)
 		requireEffects(c, R, u, []effect{
 			{name: "no-pending-poll→OnError(polling write error)", match: mNameStr("OnError", 0, "polling write error"), on: []core.Guard{none}},
@@ -155,7 +155,7 @@ func pollingEffects(c *core.Ctx, R string) {
 		}
 	}
 	// ---- DoWrite ----
-	if u := c.Fn(R, polDoWrite); u != nil {
+	if u := c.Fn(R, polDoWrite); u != nil && localAnchors(c, R, u, "respond", "callback") {
 		if k := c.KidOf(R, u, "respond"); k != nil {
 			found := requireEffects(c, R, k, []effect{
 				{name: "ctx.Cleanup()", match: mName("Cleanup")},
@@ -204,7 +204,7 @@ func pollingEffects(c *core.Ctx, R string) {
 		})
 	}
 	// ---- DoClose: the 429 abort of an unfinished data request ----
-	if u := c.Fn(R, polDoClose); u != nil {
+	if u := c.Fn(R, polDoClose); u != nil && localAnchors(c, R, u, "dataCtx", "onClose", "fn") {
 		pending := gNilLocal("dataCtx", true)
 		notDone := boolCallGuard(false, "types.(*HttpContext).IsDone")
 		requireEffects(c, R, u, []effect{
